@@ -1,10 +1,10 @@
 #!/bin/bash
 # setup_cmd: build the Coq development (full .vo build) and the Rust harness, offline.
 set -e
-cd /verif
+cd "$(dirname "$0")"
 mkdir -p .cache evidence replays
 export CARGO_NET_OFFLINE=true
 ( cd coq && rm -f Makefile.gen Makefile.gen.conf .Makefile.gen.d && timeout 3000 make -j16 all )
-( cd harness && [ -f Cargo.lock ] || cp /repo/Cargo.lock Cargo.lock; timeout 3000 cargo build --offline --quiet 2>&1 | grep -E "^error|warning: unused" | head -20 || true )
-test -x /verif/.cache/target/debug/vh
+( cd harness && [ -f Cargo.lock ] || cp ${VERIF_REPO:-/repo}/Cargo.lock Cargo.lock; timeout 3000 cargo build --offline --quiet 2>&1 | grep -E "^error|warning: unused" | head -20 || true )
+test -x .cache/target/debug/vh
 echo "setup ok"
